@@ -283,8 +283,9 @@ type c01Shared struct {
 	Old3     map[string]*c01Sess // issued 3 h ago
 	Cross    map[string]*c01Sess // live session of the issuer of that store (wrong kind for the other store)
 	Sib      map[string]*c01Sess
-	Aged     []*c01Sess // redis sessions issued 3 h ago, one per mid-request-removal history
-	Deleted  *c01Sess   // redis ticket whose entry was deleted
+	Renamed  map[string]*c01Sess // live session of a sibling with the SAME secret but --cookie-name=_other_proxy
+	Aged     []*c01Sess          // redis sessions issued 3 h ago, one per mid-request-removal history
+	Deleted  *c01Sess            // redis ticket whose entry was deleted
 	Tok      map[string]string
 	// Stale: sessions issued 3 h ago whose ID token lived 2 s and that have no refresh token; index -1 = cookie store
 	// (stateless, shared), otherwise one per Redis-store instance (a refusal removes the entry).
@@ -331,9 +332,14 @@ func (sh *c01Shared) mint(p *vfProxy, id vfIdentity, at time.Time) (*c01Sess, er
 	if resp.Code != 302 {
 		return nil, fmt.Errorf("callback status %d: %s", resp.Code, vfTrunc(vfErrText(resp.Body), 200))
 	}
-	cs := c01SessionCookies(b)
-	if len(cs) != 1 || cs[0][0] != c01CookieName {
-		return nil, fmt.Errorf("expected one session cookie, got %d", len(cs))
+	var cs [][2]string
+	for _, c := range b.Jar.All() {
+		if c.Name == p.Opts.Cookie.Name {
+			cs = append(cs, [2]string{c.Name, c.Value})
+		}
+	}
+	if len(cs) != 1 {
+		return nil, fmt.Errorf("expected one session cookie named %s, got %d", p.Opts.Cookie.Name, len(cs))
 	}
 	s := &c01Sess{Value: cs[0][1]}
 	if redis {
@@ -388,7 +394,7 @@ func c01SHA(pw string) string {
 
 func c01Setup(run *vfRun, w *vfWorld, cfgs []c01Cfg) *c01Shared {
 	sh := &c01Shared{W: w, IdP2: vfNewIdP(), UpB: w.Upstream("b"), Issuer: map[string]*vfProxy{}, Sibling: map[string]*vfProxy{},
-		Old400: map[string]*c01Sess{}, Old3: map[string]*c01Sess{}, Cross: map[string]*c01Sess{}, Sib: map[string]*c01Sess{}, Tok: map[string]string{}}
+		Old400: map[string]*c01Sess{}, Old3: map[string]*c01Sess{}, Cross: map[string]*c01Sess{}, Sib: map[string]*c01Sess{}, Renamed: map[string]*c01Sess{}, Tok: map[string]string{}}
 	w.OnClose(sh.IdP2.Close)
 	sh.Htpasswd = w.File("c01-htpasswd", "bob:"+c01SHA("pw1")+"\ncarl:"+c01SHA("pw-carl")+"\n")
 	must := func(s *c01Sess, err error) *c01Sess {
@@ -408,6 +414,8 @@ func c01Setup(run *vfRun, w *vfWorld, cfgs []c01Cfg) *c01Shared {
 		sh.Old3[store] = must(sh.mint(sh.Issuer[store], c01Alice, now.Add(-3*time.Hour)))
 		sh.Cross[store] = must(sh.mint(sh.Issuer[store], c01Alice, time.Time{}))
 		sh.Sib[store] = must(sh.mint(sh.Sibling[store], c01Alice, time.Time{}))
+		other := w.MustProxy("--session-store-type="+store, "--redis-connection-url="+w.RedisURL(), "--cookie-name=_other_proxy")
+		sh.Renamed[store] = must(sh.mint(other, c01Alice, time.Time{}))
 	}
 	for k := 0; k < 4; k++ {
 		sh.Aged = append(sh.Aged, must(sh.mint(sh.Issuer["redis"], c01Alice, now.Add(-3*time.Hour))))
@@ -704,6 +712,8 @@ func c01BuildCreds(run *vfRun, sh *c01Shared, cfg c01Cfg, idx int, p *vfProxy, r
 	add(&c01Cred{Kind: "other-store", How: "live session cookie of a " + other + "-store instance with the same secret", Cookies: ck(sh.Cross[other].Value), Undecodable: true})
 	add(&c01Cred{Kind: "other-store", How: "session cookie of a " + other + "-store instance with another secret", Cookies: ck(sh.Sib[other].Value), Undecodable: true})
 	add(&c01Cred{Kind: "deleted-ticket", How: "redis ticket whose entry was deleted from Redis", Cookies: ck(sh.Deleted.Value), Undecodable: cfg.Store != "redis"})
+	add(&c01Cred{Kind: "other-name-same-secret", How: "live session cookie of a sibling with the same --cookie-secret and store but --cookie-name=_other_proxy, presented under this instance's cookie name (a cookie is issued for its name)", Cookies: ck(sh.Renamed[cfg.Store].Value), Undecodable: true})
+	add(&c01Cred{Kind: "other-name-same-secret", How: "the same cookie under its own name _other_proxy", Cookies: [][2]string{{"_other_proxy", sh.Renamed[cfg.Store].Value}}})
 	add(&c01Cred{Kind: "wrong-name", How: "valid session value under the cookie name _oauth2_proxyx", Cookies: [][2]string{{c01CookieName + "x", v}}})
 	// CSRF cookie of this instance under the session cookie name
 	st := p.Do(vfGET("/oauth2/start?rd=/"))
@@ -1726,6 +1736,45 @@ func c01SupersededAfterSignOut(run *vfRun, sh *c01Shared) {
 	}
 }
 
+// c01UnixPeer: reverse-proxy mode off, peer address "@" (a unix-domain socket peer has no IP address). Such a peer lies
+// in no network, whatever --trusted-ip lists (loopback included): without credential it is not entitled.
+func c01UnixPeer(run *vfRun, sh *c01Shared) {
+	n := 0
+	for _, nets := range [][]string{{"127.0.0.0/8"}, {"127.0.0.1", "::1"}, {"0.0.0.0/0", "::/0"}, {"10.0.0.0/8"}} {
+		flags := []string{"--upstream=" + sh.W.Up.URL() + "/", "--upstream=" + sh.UpB.URL() + "/b/"}
+		for _, t := range nets {
+			flags = append(flags, "--trusted-ip="+t)
+		}
+		p, err := sh.W.NewProxy(flags...)
+		if err != nil {
+			run.T.Fatalf("c01: unix-peer instance %v: %v", nets, err)
+		}
+		for _, peer := range []string{"@", "@oauth2-proxy-client"} {
+			for _, mt := range [][2]string{{"GET", "/x"}, {"POST", "/b/y"}, {"OPTIONS", "/x"}, {"GET", "/oauth2/auth"}, {"GET", "/oauth2/userinfo"}} {
+				n++
+				id := fmt.Sprintf("c01unix-%d", n)
+				req := vfNewReq(mt[0], mt[1], "X-Vf-Id", id).From(peer)
+				r := p.Do(req)
+				hits := append(sh.W.Up.FindHit(id), sh.UpB.FindHit(id)...)
+				class := c01EndpointClass(mt[1])
+				served := len(hits) > 0 || (class == "auth" && r.Code == 202) || (class == "userinfo" && r.Code == 200)
+				run.Eval("unix-peer|" + class + "|trusted=" + nets[0])
+				wit := map[string]interface{}{"flags": p.Flags, "request": req, "peer_address": peer, "status": r.Code, "upstream_hits": hits}
+				switch {
+				case r.Panic != "":
+					c01Violation(run, "c01:panic", "request handling panicked: "+vfTrunc(r.Panic, 200), wit)
+				case served:
+					c01Violation(run, "c01:served-without-entitlement", fmt.Sprintf("reverse-proxy mode off, --trusted-ip=%v: %s %s without credential from the unix-socket peer %q (no IP address) was served (status %d)", nets, mt[0], mt[1], peer, r.Code), wit)
+				case r.Code != 401 && r.Code != 403:
+					c01Violation(run, "c01:refusal-shape", fmt.Sprintf("unix-socket peer %q refused with status %d", peer, r.Code), wit)
+				default:
+					run.Count("unix_peer_refused", 1)
+				}
+			}
+		}
+	}
+}
+
 func TestVerif_C01(t *testing.T) {
 	run := vfNewRun(t, "C01", "exploration")
 	run.SetRule("per instance: every credential state (none; real sessions of 5 identities; tampered/stripped/re-dated/random/garbage cookies; expired; other secret; other store; deleted ticket; CSRF value; wrong name; " +
@@ -1758,6 +1807,7 @@ func TestVerif_C01(t *testing.T) {
 	c01SymlinkedHtpasswd(run, sh)
 	c01OverrideHeaders(run, sh)
 	c01SupersededAfterSignOut(run, sh)
+	c01UnixPeer(run, sh)
 	run.Count("ms_histories", time.Since(t0).Milliseconds())
 	w.Up.Reset()
 	sh.UpB.Reset()
@@ -1778,7 +1828,7 @@ func TestVerif_C01(t *testing.T) {
 	sh.statMu.Unlock()
 	run.Extra("per_credential_kind", stat)
 	// a run that saw (almost) nothing served or nothing refused proves nothing
-	for _, c := range []string{"served_valid_credential", "refused", "served_by_bypass_route", "served_by_bypass_ip", "served_by_bypass_preflight", "refused_by_redirect_to_idp", "wire_requests", "rotation_old_password_refused", "rotation_current_password_served", "forwarded_header_spoof_refused", "served_by_bypass_configured_client_ip_header", "override_header_refused"} {
+	for _, c := range []string{"served_valid_credential", "refused", "served_by_bypass_route", "served_by_bypass_ip", "served_by_bypass_preflight", "refused_by_redirect_to_idp", "wire_requests", "rotation_old_password_refused", "rotation_current_password_served", "forwarded_header_spoof_refused", "served_by_bypass_configured_client_ip_header", "override_header_refused", "unix_peer_refused"} {
 		if run.Counter(c) < 20 && run.Violations() == 0 {
 			fmt.Printf("INCONCLUSIVE property=C01 reason=counter %s=%d: the workload did not exercise this outcome\n", c, run.Counter(c))
 			t.Fail()
